@@ -275,6 +275,14 @@ def erase_async(toks, audit, item):
                 audit.add('R5', 'async fn', '', item)
                 i = j
                 continue
+            # `async move { B }` / `async { B }` as an expression (e.g. the body of a closure): the block itself
+            j2 = j
+            if j2 < n and toks[j2][1] == 'move':
+                j2 = next_sig(toks, j2 + 1)
+            if j2 < n and toks[j2][1] == '{' and out and prev_sig(out, len(out) - 1) >= 0 and out[prev_sig(out, len(out) - 1)][1] != '(':
+                audit.add('R5', 'async block', '', item)
+                i = j2
+                continue
         if k == 'p' and t == '.':
             j = next_sig(toks, i + 1)
             if j < n and toks[j][1] == 'await':
